@@ -842,7 +842,7 @@ func (c *Ctx) c13Views(m *pop3Model) {
 				if !ok || eng.StaticCallee(call.Common()) != m.send {
 					return false
 				}
-				s, isC := eng.ConstString(call.Call.Args[len(call.Call.Args)-1])
+				s, isC := eng.ConstString(firstStringArg(call))
 				return isC && s == "."
 			}
 			if ret := eng.BlockReaches(lp.header.Succs[1], eng.IsReturn, isTerm); ret != nil {
@@ -883,7 +883,7 @@ func (c *Ctx) c13Views(m *pop3Model) {
 				arm = "LIST+UIDL"
 			}
 			// only positive (+OK) replies
-			if pre, ok := eng.ReplyPrefix(call.Call.Args[len(call.Call.Args)-1]); ok && !strings.HasPrefix(pre, "+OK") {
+			if pre, ok := eng.ReplyPrefix(firstStringArg(call)); ok && !strings.HasPrefix(pre, "+OK") {
 				return
 			}
 			nSingle++
@@ -916,13 +916,17 @@ func sprintfHasIndexPlusOne(v ssa.Value, idx ssa.Value) bool {
 }
 
 func sprintfArgs(v ssa.Value) []ssa.Value {
-	call, ok := v.(*ssa.Call)
-	if !ok || eng.CalleeName(call.Common()) != "fmt.Sprintf" || len(call.Call.Args) < 2 {
-		return nil
-	}
-	sl, ok := call.Call.Args[1].(*ssa.Slice)
+	// either fmt.Sprintf(format, operands…) or, for a printf-style send, the operand pack itself
+	sl, ok := v.(*ssa.Slice)
 	if !ok {
-		return nil
+		call, isCall := v.(*ssa.Call)
+		if !isCall || eng.CalleeName(call.Common()) != "fmt.Sprintf" || len(call.Call.Args) < 2 {
+			return nil
+		}
+		sl, ok = call.Call.Args[1].(*ssa.Slice)
+		if !ok {
+			return nil
+		}
 	}
 	al, ok := sl.X.(*ssa.Alloc)
 	if !ok {
@@ -1264,4 +1268,14 @@ func sameNamedStruct(t types.Type, f *types.Var) bool {
 		}
 	}
 	return false
+}
+
+// firstStringArg: the text (or format) argument of a call of the session's send function.
+func firstStringArg(call *ssa.Call) ssa.Value {
+	for _, a := range call.Call.Args {
+		if isString(a.Type()) {
+			return a
+		}
+	}
+	return call.Call.Args[len(call.Call.Args)-1]
 }
